@@ -7,7 +7,7 @@ from checks import CHECKS
 from na import NOT_APPLICABLE, LEVEL_TEXT, LEVEL_NOTE
 
 import subprocess
-HOOK_COMMIT = subprocess.check_output(['git','-C','/repo','log','--format=%H','--grep=^verif hooks','-1']).decode().strip()
+HOOK_COMMITS = subprocess.check_output(['git','-C','/repo','log','--format=%H','--grep=^verif hooks','--reverse']).decode().split()
 props = [json.loads(l) for l in open(os.path.join(ROOT, "properties.jsonl"))]
 ids = [p["id"] for p in props]
 checks = []
@@ -31,9 +31,9 @@ na = [dict(property_id=pid, reason=NOT_APPLICABLE[pid]) for pid in ids if pid no
 m = dict(
     version=1,
     setup_cmd="cd symgo && GOFLAGS=-mod=mod GOPROXY=off GOSUMDB=off GOTOOLCHAIN=local go build -o ../bin/symgo .",
-    hooks=dict(guard="verif", enable="go build tag: -tags verif (symgo loads /repo with BuildFlags -tags=verif; native replays run go test -tags verif). The only hook is the variable vfNoBackground (server/verif_hooks_on.go) tested at the top of LockDB.startCheckLoop and AofChannel.Run; harness code itself is injected with overlays and never written into /repo",
+    hooks=dict(guard="verif", enable="go build tag: -tags verif (symgo loads /repo with BuildFlags -tags=verif; native replays run go test -tags verif). The hooks are two variables in server/verif_hooks_on.go (constants false in verif_hooks_off.go): vfNoBackground, tested at the top of LockDB.startCheckLoop and AofChannel.Run, and vfSingleRound, tested at the end of a round of the sweeper loops LockDB.checkTimeOut / checkExpried; harness code itself is injected with overlays and never written into /repo",
                baseline_off_cmd="cd /repo && GOFLAGS=-mod=mod GOPROXY=off go test -vet=off -count=1 ./protocol/... ./server/...",
-               source_commits=[HOOK_COMMIT], add_only=True),
+               source_commits=HOOK_COMMITS, add_only=True),
     engines=[dict(name="symgo", path="symgo/", serves_properties=[c["property_id"] for c in checks],
                   kind_free_text="own SSA-level symbolic executor for Go (go/ssa -> SMT-LIB2 bit-vector terms, z3/cvc5 back ends), path exploration by re-execution, if-conversion of pure diamonds, native replay of every counterexample and of sampled path witnesses")],
     checks=checks,
